@@ -116,6 +116,35 @@ func runC14(w *World) {
 		fence = w.addActor(n, "127.0.0.1:50002", []Cmd{{Args: []string{"NEARBY", "k1", "FENCE", "POINT", "0", "0", "30000000"}, GoLive: true}})
 		fence.weight = 50
 	}
+	// a quarter of the runs rewrite the log while deadlines come and go, and end with a crash and
+	// a restart: restarts observe expirations and deadlines exactly as the live server had them -
+	// what had a deadline still has one, what had none has none
+	withRewrite := w.knob("rewrite", 4) == 1
+	if withRewrite {
+		sh := w.addActor(n, "127.0.0.1:50090", []Cmd{{Args: []string{"AOFSHRINK"}}})
+		sh.weight = 2
+		sh.onReply = func(op *Op) {}
+	}
+	if withRewrite {
+		// run until the rewrite has replaced the log, then crash and restart at once: whatever the
+		// rewritten file says about deadlines is observed before later writes can paper over it
+		first := inst.srv.aof
+		swapped := func() bool {
+			return n.inst == inst && inst.srv.aof != first && !inst.srv.shrinking && inst.atPoint == ""
+		}
+		w.RunChaos(size*60, func() bool { return a.done() || swapped() })
+		if !w.failed() && swapped() {
+			a.paused = true
+			w.Settle()
+			rc := &restartCtx{w: w, n: n, class: "C14", acked: map[string]bool{}, hc: hc}
+			if rc.stopAndRestart(false) {
+				w.stat("probe.restart_right_after_rewrite_with_deadlines", 1)
+				w.nontriv = true
+			}
+			w.stat("c14.ops_checked", hc.nChecked)
+			return
+		}
+	}
 	w.RunChaos(size*60, a.done)
 	if !w.failed() && !a.done() {
 		w.Drain(60*time.Second, a.done)
@@ -199,6 +228,13 @@ func runC14(w *World) {
 		}
 	}
 	w.stat("c14.ops_checked", hc.nChecked)
+	if withRewrite && !w.failed() {
+		w.Drain(30*time.Second, func() bool { return !n.inst.srv.shrinking && n.inst.atPoint == "" })
+		rc := &restartCtx{w: w, n: n, class: "C14", acked: map[string]bool{}, hc: hc}
+		if rc.stopAndRestart(false) {
+			w.stat("probe.restart_after_rewrite_with_deadlines", 1)
+		}
+	}
 	w.nontriv = nexp >= 1 && hc.nChecked >= 8
 	w.sample = map[string]interface{}{"seed": w.seed, "program_len": size, "expired_by_sweeper": nexp, "fence_receiver": fence != nil,
 		"first_cmds": func() []string {
